@@ -38,6 +38,12 @@ def fn_of(e):
     return tfuncs.FUN.fns[e.fn]
 
 
+def efn(e):
+    """The function of an entry with the entry's effective context arguments attached."""
+    f = fn_of(e)
+    return f.with_context_args(dict(e.ctx)) if e.ctx else f
+
+
 def call_args(e, tid):
     from vf import tfuncs
 
@@ -65,14 +71,19 @@ def run_case(case):
     out = {"viol": [], "nontrivial": [], "obs": collections.Counter(), "sets": {"step_kinds": set()}}
     rng = core.rng_for(case["seed"], ID, case["idx"])
     tid = "T%d_%d" % (case["seed"], case["idx"])
-    tree = trees.gen_tree(rng, tid, aimed_batch=case["idx"] % 2 == 0)
+    # every third tree runs under context arguments attached at the root, with calls that attach their own at inner edges
+    # (the effective context of a call is part of its argument hash, hence of what its caller records)
+    ctx_mode = case["idx"] % 3 == 1
+    tree = trees.gen_tree(rng, tid, aimed_batch=case["idx"] % 2 == 0, with_context=ctx_mode)
+    root_ctx = rng.choice([{"tenant": 1}, {"asof": "2020-01-02", "k": [1, 2]}, {"tenant": "x", "zone": None}]) if ctx_mode else None
     tfuncs.TREES[tid] = tree
     for nd in tree["nodes"]:
         for s in nd["steps"]:
             out["sets"]["step_kinds"].add(s[0])
         if nd["fail"]:
             out["sets"]["step_kinds"].add("fail:" + nd["fail"])
-    entries = trees.simulate(tree)
+    entries = trees.simulate(tree, root_ctx=root_ctx)
+    out["obs"]["trees_run_under_context_arguments"] += int(ctx_mode)
     keys = list(entries)
     root = entries[keys[0]]
     memoizable = [k for k in keys[1:] if entries[k].fail != "transient"]
@@ -96,7 +107,7 @@ def run_case(case):
             batch_mode = bool(si % 4 >= 2)
 
             def invoke_root_here():
-                f = fn_of(root)
+                f = efn(root)
                 try:
                     if batch_mode:
                         f.call_batch([{"tree": tid, "node": 0}], raise_first_exception=False)
@@ -125,7 +136,7 @@ def run_case(case):
                 if k not in S:
                     e = entries[k]
                     if e.fail != "transient":
-                        fn_of(e).forget(*call_args(e, tid))
+                        efn(e).forget(*call_args(e, tid))
             unreadable = False
             if si % 5 == 4 and S:
                 # the sub-calls left memoized keep their mementos but lose their result data (a store copied without
@@ -149,6 +160,16 @@ def run_case(case):
             ran = {(ev[1][0], ev[1][2], ev[1][4]) for ev in REC.since(mark)}
             recomputed = [k for k in keys if (entries[k].fn, entries[k].node, entries[k].fnarg.i if entries[k].fnarg else None)
                           in ran and entries[k].fail != "transient"]
+            if ctx_mode and not unreadable:
+                # bodies never see context arguments, so the recorder cannot tell two entries apart that differ in nothing
+                # but their effective context: of those, the ones whose callers all were served from the store did not run
+                reached, stack = set(), [keys[0]]
+                while stack:
+                    k = stack.pop()
+                    if k not in reached:
+                        reached.add(k)
+                        stack += [c for c in entries[k].children if c not in S or entries[c].fail == "transient"]
+                recomputed = [k for k in recomputed if k in reached]
             out["obs"]["subset_runs"] += 1
             served = [k for k in S if any(k in entries[p].children for p in recomputed)]
             if served and len(recomputed) > 1:
@@ -175,7 +196,7 @@ def compare_all(out, fail, entries, which, tid, label, batch_mode):
         e = entries[k]
         if e.fail == "transient":
             continue
-        m = fn_of(e).memento(*call_args(e, tid))
+        m = efn(e).memento(*call_args(e, tid))
         if m is None:
             fail("a computed call has no memento", "%s node %d (%s)" % (label, e.node, trees.QN[e.fn]))
             continue
